@@ -34,7 +34,11 @@ func (w *World) main() {
 	crNode := &networkv1beta1.Node{ObjectMeta: metav1.ObjectMeta{Name: nodeName}, Spec: w.nodeSpec()}
 	w.api = kit.NewSimAPI(w.run, types.Scheme, []client.Object{&networkv1beta1.Node{}, &networkv1beta1.NodeRuntime{}, &corev1.Node{}, &corev1.Pod{}}, knode)
 	w.api.Decide = func(op string, obj runtime.Object) kit.APIFault {
-		switch w.faultAt("api." + op) {
+		f := w.faultAt("api." + op + "." + kit.KindOf(obj))
+		if g := w.faultAt("api." + op); f == "" {
+			f = g
+		}
+		switch f {
 		case "err":
 			return kit.APIErrBefore
 		case "err-after":
@@ -233,7 +237,16 @@ func (w *World) runOp(op Op) {
 		p.sb++
 		sandbox := cid(p)
 		p.sbs = append(p.sbs, sandbox)
-		w.spawn("add:"+p.spec.Name, op.Async, func() { w.cniAdd(p, sandbox) })
+		delay, forUID := time.Duration(op.AddDelayMs)*time.Millisecond, p.uid
+		w.spawn("add:"+p.spec.Name, op.Async, func() {
+			if delay > 0 {
+				simrt.Sleep(delay)
+				if !p.exists || p.uid != forUID {
+					return // the pod went away before its sandbox was set up
+				}
+			}
+			w.cniAdd(p, sandbox)
+		})
 	case "down":
 		if p == nil || !p.exists {
 			return
@@ -307,7 +320,12 @@ func (w *World) cniAdd(p *podState, sandbox string) {
 	w.run.Probe("add-ok")
 	w.addOK[uid] = true
 	w.run.Eval()
-	kit.CheckNetConf(w.run, p.spec.Name, reply, w.cfg.v4(), w.cfg.v6())
+	// in CRD mode the agent answers with the families the record binds to this pod instance (one
+	// is enough for it): each family present must be one of the stack and self-consistent
+	kit.CheckNetConf(w.run, p.spec.Name, reply, w.cfg.v4() && v4 != "", w.cfg.v6() && v6 != "")
+	if v4 == "" && v6 == "" {
+		w.run.Violate("C12", "netconf", "netconf-no-address", "reply for %s carries no address", p.spec.Name)
+	}
 	// C02: what the daemon hands to the pod is what the record binds to it
 	if node := w.truthNode(); node != nil && p.exists && p.uid == uid {
 		b4, b6, _ := bindingsOf(node, ns+"/"+p.spec.Name)
